@@ -118,7 +118,7 @@ def _fails(init, h, seed):
 
 
 def replay(case):
-    init = [(n, tuple(s), o, c) for n, s, o, c in case["init"]]
+    init = [(i[0], tuple(i[1])) + tuple(i[2:]) for i in case["init"]]
     h = [tuplify(s) for s in case["history"]]
     f = _fails(init, h, case.get("seed", 0))
     return [dict(failure=f)] if f is not None else []
@@ -128,7 +128,7 @@ def finalize(v):
     import harness.C04 as C04
 
     case = v["case"]
-    init = [(n, tuple(s), o, c) for n, s, o, c in case["init"]]
+    init = [(i[0], tuple(i[1])) + tuple(i[2:]) for i in case["init"]]
     seed = case.get("seed", 0)
     h = [tuplify(s) for s in case["history"]]
     f0 = _fails(init, h, seed)
